@@ -381,7 +381,16 @@ class QvmCpu:
         instr, operands, size = self.get_current_instruction()
         if instr.op == 'call':
             prev_pc = self.pc
-            bp = lambda cpu: (cpu.pc == prev_pc + size)
+            frame = self.cur_frame
+            gosubs = frame.gosubs if frame is not None else 0
+
+            # the call is over when control is behind it in this
+            # very activation, not in a recursive one.
+            bp = lambda cpu: (
+                cpu.pc == prev_pc + size and
+                cpu.cur_frame is frame and
+                (frame is None or frame.gosubs == gosubs)
+            )
             self.add_breakpoint(bp)
             try:
                 ret = self.run()
